@@ -1,5 +1,7 @@
 # C11 — bulk calls f once per index, then completes once.
 #   (a) DIFF     harness/c11_arith.cpp : real get_chunk_size / get_num_chunks / init_queue / do_work_chunk vs Model/Bulk.v
+#   (b2) TRACE harness/c11_trace.cpp    : the real bulk_receiver::set_value (spawn loop, register_work, local part, countdown) on a real pool;
+#       the logged order of the atomic accesses is replayed by the extracted lock_trace as an acceptor
 #   (b) LOCKSTEP harness/c11_lock.cpp  : real task_function / finish / store_exception on real index queues, schedule
 #                                        chosen by the controller and replayed by the model (lock_trace)
 #   (c) PROC     harness/c11_e2e.cpp   : ex::bulk on the real pool (several worker counts) and the generic fallback
@@ -209,7 +211,8 @@ def run(ctx):
     r.rule = ('DIFF: (shape type, W, n) from a fixed table of shapes around 2^31, 2^32, 2^63, 2^64 and a VERIF_SEED-driven grid '
               '(8*W*2^k +-2, 2^j +-1, max(T)-d, small, random; W in 1..64 and a few larger); LOCKSTEP: W in 1..5, n <= 40, '
               'throwing sets and completing worker random, interleaving of queue LOAD/CAS, f entry/exit, exchange/store, '
-              'decrement chosen by the controller; PROC: ex::bulk on the real pool for several worker counts, 8 shape types, '
+              'decrement chosen by the controller; TRACE: the real set_value (spawn loop, register_work, local part, countdown) on real pools of 1,2,3,4,6 workers, n <= 200, '
+              'atomic accesses serialised by a token passed at the hooks, logged order replayed by lock_trace; PROC: ex::bulk on the real pool for several worker counts, 8 shape types, '
               '4 predecessor kinds, throwing sets, plus the generic fallback. A case is non-trivial when it has n > 0 '
               '(DIFF), >= 2 workers interleave (LOCKSTEP), or n > W (PROC); distinct = distinct input lines')
     quick = ctx.tier == 'quick'
@@ -312,6 +315,79 @@ def run(ctx):
                                   {'harness': 'c11_lock', 'args': [ctx.seed, n], 'case': imap.get(k_[1]), 'impl': a, 'model': b}))
             for i_ in ins[:1]:
                 r.sample({'lockstep_input_and_schedule': i_, 'observed': [o for o in outs if o.split(' ')[2] == i_.split(' ')[2]][:1]})
+
+    # ---------------------------------------------------------------- (b2) TRACE of the real set_value on a real pool
+    if only in (None, 'c11_trace'):
+        try:
+            h = ctx.build_harness('c11_trace', 'c11_trace.cpp')
+        except TieError as e:
+            h = None
+            r.hits.append(Hit('tie', 'C11:trace_harness', 'trace harness does not compile against the source: %s' % str(e)[-700:],
+                              {'harness': 'c11_trace'}))
+        if h:
+            ncs = 50 if quick else 700
+            for W in (1, 2, 3, 4, 6):
+                start, lines = 0, []
+                for _ in range(6):
+                    rc, out = sh([h, str(ctx.seed), str(ncs), str(W), str(start)], timeout=600 if quick else 3000)
+                    ls = out.split('\n')
+                    lines += ls
+                    if rc == 0:
+                        break
+                    last = None
+                    for x in ls:
+                        if x.startswith('CASE '):
+                            last = x
+                    r.hits.append(Hit('monitor', 'C11:trace:crash_or_stuck',
+                                      'the real bulk operation on a %d-worker pool crashed or never completed (rc=%s) in [%s]: %s'
+                                      % (W, rc, last, ' | '.join(ls[-4:])[-400:]),
+                                      {'harness': 'c11_trace', 'args': [ctx.seed, ncs, W], 'case': last}))
+                    if last is None:
+                        break
+                    start = int(last.split(' ')[1]) + 1
+                    if start >= ncs:
+                        break
+                for x in lines:
+                    if x.startswith('TIEFAIL'):
+                        r.hits.append(Hit('tie', 'C11:trace:attribution', x[:300], {'harness': 'c11_trace', 'args': [ctx.seed, ncs, W]}))
+                ins = [x for x in lines if x.startswith('IN TR ')]
+                outs = [x for x in lines if x.startswith('OUT TR ')]
+                mouts = model(ins)
+                diffs, ncases = diff_lines(ctx, outs, mouts)
+                r.evaluations += ncases
+                r.traces += ncases
+                imap = {x.split(' ')[2]: x for x in ins}
+                for o_ in outs:
+                    i_ = imap.get(o_.split(' ')[2])
+                    if not i_:
+                        continue
+                    p = i_.split(' ')
+                    r.count('trace:W=%s' % p[3])
+                    r.count('trace:throw=%s' % p[7].split(':')[0])
+                    if int(p[3]) >= 2 and len(set(p[8].split(','))) >= 2:
+                        r.nontrivial(i_[:300])
+                    m = lock_monitor(i_, o_)
+                    if not m:
+                        f_ = fields(o_)
+                        fin = [] if f_['fin'] == '-' else f_['fin'].split(',')
+                        if sorted(int(x) for x in fin) != list(range(int(p[3]))) or f_['rem'] != '0':
+                            m = ('countdown', 'tasks_remaining was decremented on behalf of workers %s, pool has %s workers' % (fin, p[3]))
+                    if m:
+                        r.hits.append(Hit('monitor', 'C11:trace:' + m[0], 'real set_value on a real pool (W=%s n=%s throw=%s): %s' % (p[3], p[4], p[7], m[1]),
+                                          {'harness': 'c11_trace', 'args': [ctx.seed, ncs, W], 'case': i_[:2000], 'observed': o_[:2000]}))
+                for (k_, a, b) in diffs[:10]:
+                    # first position where the site sequences differ = the first logged event that is not enabled in the model
+                    fa, fb = fields(a) if a.startswith('OUT') else {}, fields(b) if b.startswith('OUT') else {}
+                    sa, sb = fa.get('sites', '').split(','), fb.get('sites', '').split(',')
+                    pos = next((i for i, (x, y) in enumerate(zip(sa, sb)) if x != y), None)
+                    why = ('event #%d (site %s) is not enabled in the model, which has that thread at site %s' % (pos, sa[pos], sb[pos])) if pos is not None else \
+                        '; '.join('%s: impl %s model %s' % (q, fa.get(q, '?')[:120], fb.get(q, '?')[:120]) for q in ('calls', 'exits', 'thrown', 'sigs', 'fin', 'rem') if fa.get(q) != fb.get(q))
+                    r.hits.append(Hit('corr', 'C11:trace:correspondence',
+                                      'logged order of the real set_value/task_functions is not a run of the model (case %s): %s' % (imap.get(k_[1], '?')[:120], why[:600]),
+                                      {'harness': 'c11_trace', 'args': [ctx.seed, ncs, W], 'case': imap.get(k_[1], '')[:3000], 'impl': a[:3000], 'model': b[:3000]}))
+                for i_ in ins[:1]:
+                    if W == 3:
+                        r.sample({'trace_input_and_logged_schedule': i_[:600], 'observed': [o[:600] for o in outs if o.split(' ')[2] == i_.split(' ')[2]][:1]})
 
     # ---------------------------------------------------------------- (c) end to end on the real pool
     if only in (None, 'c11_e2e'):
